@@ -378,6 +378,76 @@ func enum(n int, s scope, r *Rng) []*Q {
 	return out
 }
 
+// shapes near the precondition of compileArray's constant folding: commas and pipes of constants and identities
+func randCP(r *Rng, depth int) *Q {
+	if depth <= 0 || r.Chance(1, 3) {
+		switch r.Intn(6) {
+		case 0:
+			return &Q{K: "id"}
+		case 1:
+			return &Q{K: "arr", A: randCP(r, depth-1)}
+		default:
+			return &Q{K: "c", V: simpleConsts[r.Intn(len(simpleConsts))]}
+		}
+	}
+	if r.Chance(2, 3) {
+		return &Q{K: "comma", A: randCP(r, depth-1), B: randCP(r, depth-1)}
+	}
+	return &Q{K: "pipe", A: randCP(r, depth-1), B: randCP(r, depth-1)}
+}
+
+// a left-nested comma of constants (which compileArray folds) with one or two near-miss edits that keep the
+// opcode shape (fork^l (const jump)^(l-1) const) or almost keep it
+func nearFold(r *Rng) *Q {
+	n := 1 + r.Intn(4)
+	var t *Q
+	for i := 0; i < n; i++ {
+		c := &Q{K: "c", V: simpleConsts[r.Intn(len(simpleConsts))]}
+		if t == nil {
+			t = c
+		} else {
+			t = &Q{K: "comma", A: t, B: c}
+		}
+	}
+	var edit func(q *Q) *Q
+	edit = func(q *Q) *Q {
+		switch q.K {
+		case "comma":
+			switch r.Intn(5) {
+			case 0: // (A, .) | B : same opcodes as A, B but different targets
+				return &Q{K: "pipe", A: &Q{K: "comma", A: q.A, B: &Q{K: "id"}}, B: q.B}
+			case 1:
+				return &Q{K: "comma", A: edit(q.A), B: q.B}
+			case 2:
+				return &Q{K: "comma", A: q.A, B: edit(q.B)}
+			case 3: // right nesting
+				if q.A.K == "comma" {
+					return &Q{K: "comma", A: q.A.A, B: &Q{K: "comma", A: q.A.B, B: q.B}}
+				}
+				return &Q{K: "pipe", A: q, B: &Q{K: "id"}}
+			default:
+				return &Q{K: "pipe", A: &Q{K: "id"}, B: q}
+			}
+		case "c":
+			switch r.Intn(4) {
+			case 0:
+				return &Q{K: "pipe", A: q, B: &Q{K: "id"}}
+			case 1:
+				return &Q{K: "id"}
+			case 2:
+				return &Q{K: "arr", A: q}
+			default:
+				return &Q{K: "pipe", A: &Q{K: "comma", A: q, B: &Q{K: "id"}}, B: &Q{K: "c", V: simpleConsts[r.Intn(len(simpleConsts))]}}
+			}
+		}
+		return q
+	}
+	for k := r.Intn(3); k > 0; k-- {
+		t = edit(t)
+	}
+	return &Q{K: "arr", A: t}
+}
+
 func randQ(r *Rng, budget int, s scope) *Q {
 	if budget <= 1 || r.Chance(1, 6) {
 		ls := leaves(s, false)
@@ -486,6 +556,23 @@ func runOne(c *Ctx, code *gojq.Code, q *Q, in any) {
 	c.Emit("(run %s %s (%s) %s)", q.Sexp(), SexpVal(in), strings.Join(outs, " "), ending)
 }
 
+// wrappers that make a value left below the top of the stack observable (used by the focused search
+// after an instruction-list mismatch: a stack-discipline fault of P shows as a wrong output of C[P])
+func wrappers(q *Q) []*Q {
+	id := func() *Q { return &Q{K: "id"} }
+	return []*Q{
+		{K: "if", A: q, B: id(), C: id()},
+		{K: "bind", A: q, N: 7, B: id()},
+		{K: "reduce", A: q, N: 7, B: id(), C: id()},
+		{K: "foreach", A: q, N: 7, B: id(), C: id()},
+		{K: "pipe", A: &Q{K: "arr", A: q}, B: &Q{K: "iter", A: id()}},
+		{K: "alt", A: q, B: id()},
+	}
+}
+
+var wrapOrdinals = map[int]bool{}
+var ordinal int
+
 func doProgram(c *Ctx, q *Q, r *Rng, ninputs int, seen map[string]bool) {
 	src := q.T(r)
 	key := q.Sexp()
@@ -493,6 +580,35 @@ func doProgram(c *Ctx, q *Q, r *Rng, ninputs int, seen map[string]bool) {
 		return
 	}
 	seen[key] = true
+	ordinal++
+	if len(wrapOrdinals) > 0 {
+		if !wrapOrdinals[ordinal] {
+			// keep the generator's random stream identical to the original run
+			for i := 0; i < ninputs && ninputs < len(inputs); i++ {
+				r.Intn(len(inputs))
+			}
+			return
+		}
+		for i := 0; i < ninputs && ninputs < len(inputs); i++ {
+			r.Intn(len(inputs))
+		}
+		rr := NewRng(uint64(ordinal))
+		for _, w := range append(wrappers(q), q) {
+			wsrc := w.T(rr)
+			pq, err := gojq.Parse(wsrc)
+			if err != nil {
+				continue
+			}
+			code, err := gojq.Compile(pq)
+			if err != nil {
+				continue
+			}
+			for _, in := range inputs {
+				runOne(c, code, w, in)
+			}
+		}
+		return
+	}
 	pq, err := gojq.Parse(src)
 	if err != nil {
 		c.Violation("generated program does not parse: %s: %v", src, err)
@@ -525,8 +641,15 @@ func doProgram(c *Ctx, q *Q, r *Rng, ninputs int, seen map[string]bool) {
 func runC01vm(c *Ctx) {
 	seen := map[string]bool{}
 	r := c.Rng
+	// focused search: arguments wrap:<ordinal> select programs (by generation order) to re-run inside wrappers
+	for _, a := range c.Args {
+		var k int
+		if _, err := fmt.Sscanf(a, "wrap:%d", &k); err == nil {
+			wrapOrdinals[k] = true
+		}
+	}
 	// explicit programs given as arguments are not supported (ASTs are regenerated from the seed)
-	maxExh, sample5 := 3, 3000
+	maxExh, sample5 := 3, 2000
 	if c.Tier != "quick" {
 		maxExh, sample5 = 4, 60000
 	}
@@ -538,6 +661,16 @@ func runC01vm(c *Ctx) {
 	next := enum(maxExh+1, scope{}, r)
 	for i := 0; i < sample5 && len(next) > 0; i++ {
 		doProgram(c, next[r.Intn(len(next))], r, 3, seen)
+	}
+	for i := 0; i < c.N/8; i++ {
+		q := &Q{K: "arr", A: randCP(r, 1+r.Intn(4))}
+		if r.Chance(1, 2) {
+			q = nearFold(r)
+		}
+		if r.Chance(1, 3) {
+			q = &Q{K: "pipe", A: q, B: &Q{K: "iter", A: &Q{K: "id"}}}
+		}
+		doProgram(c, q, r, 2, seen)
 	}
 	for i := 0; i < c.N; i++ {
 		budget := 3 + r.Intn(22)
